@@ -472,6 +472,46 @@ impl<'a> Prog<'a> {
         }
         self.emit(format!("dec all {} {}", hex(input), room), s);
     }
+    /// `decode_all_to_vec` into a vector that already holds `prefix` and has `room` spare capacity; the
+    /// model sees it as `decode_all` with a target of `room` bytes
+    pub fn decode_all_to_vec(&mut self, input: &[u8], prefix: &[u8], room: usize, expect: Option<&[u8]>) {
+        self.unstream();
+        let mut out: Vec<u8> = Vec::with_capacity(prefix.len() + room);
+        out.extend_from_slice(prefix);
+        let room = out.capacity() - out.len(); // the allocator may round up
+        let res = guarded(|| self.fd().decode_all_to_vec(input, &mut out));
+        self.run.oracle_checks += 1;
+        let s = match res {
+            Ok(Ok(())) => {
+                if out.len() < prefix.len() || out[..prefix.len()] != prefix[..] {
+                    self.oracle_fail("C10", "vec_prefix_clobbered", "decode_all_to_vec changed the bytes already in the vector".into());
+                }
+                let got = out[prefix.len().min(out.len())..].to_vec();
+                if let Some(e) = expect {
+                    if got != e {
+                        self.oracle_fail("C10", "decode_all_wrong", format!("decode_all_to_vec appended {} bytes, expected {}", got.len(), e.len()));
+                    }
+                }
+                format!("ok {}", show_bytes(&got))
+            }
+            Ok(Err(e)) => {
+                if out != prefix {
+                    self.oracle_fail("C10", "vec_changed_on_failure", format!("decode_all_to_vec failed ({}) but left the vector changed (len {} vs {})", frame_err(&e), out.len(), prefix.len()));
+                }
+                if let Some(ex) = expect {
+                    if room >= ex.len() {
+                        self.oracle_fail("C10", "decode_all_rejects_valid", format!("decode_all_to_vec failed ({}) with enough spare capacity", frame_err(&e)));
+                    }
+                }
+                frame_err(&e)
+            }
+            Err(p) => {
+                self.oracle_fail("C03", "panic_decode_all", format!("panic in decode_all_to_vec: {}", p));
+                "fault".into()
+            }
+        };
+        self.emit(format!("dec all {} {}", hex(input), room), s);
+    }
     pub fn finished(&mut self) -> bool {
         self.fd().is_finished()
     }
@@ -733,6 +773,13 @@ pub fn run(opts: &Opts) -> Run {
             trunc_skip.extend_from_slice(&1000u32.to_le_bytes());
             trunc_skip.extend_from_slice(&[0; 10]);
             p.decode_all(&trunc_skip, c.original.len() + 10, None);
+            // the Vec front end: spare capacity exact / too small / with existing content
+            p.decode_all_to_vec(&input, b"prefix", expect.len() + 64, Some(&expect));
+            p.decode_all_to_vec(&input, b"", expect.len(), Some(&expect));
+            if expect.len() > 70 {
+                p.decode_all_to_vec(&input, b"keep me", expect.len() - 70, None);
+            }
+            p.decode_all_to_vec(&garbage, b"xy", expect.len() + 64, None);
             p.run.stat("multi_frame_programs", 1);
         }
     }
